@@ -807,6 +807,9 @@ func (b *Builder) typeSwitchStmt(s *ast.TypeSwitchStmt) {
 				n.Cond = mk("bin", "==", x, tNil)
 			} else {
 				n.Cond = &Term{Op: "typeis", Name: b.P.typeStr(b.info.TypeOf(e)), Args: []*Term{x}}
+				if types.IsInterface(b.info.TypeOf(e)) {
+					n.Cond.Fields = []string{"iface"}
+				}
 			}
 			b.emit(n)
 			n.Succ = []*Node{cl.l, nxt}
